@@ -683,12 +683,18 @@ func directed(tier string) []any {
 			if tier == "thorough" {
 				grid = 32
 			}
-			if n == "own" && k != "tkn20" && grid < 24 {
+			if n == "own" && k == "p384" {
+				// a cheap call with many short windows (table entries used in place): a dense grid
+				grid = 160
+			} else if n == "own" && k != "tkn20" && grid < 24 {
 				// package-level scratch and tables are touched in short windows (an entry changed
 				// in place and restored): a denser grid for the calls that are cheap
 				grid = 24
 			}
 			out = &groupB
+			if n == "own" && k == "p384" {
+				out = &groupS // with the sharp plans: it is cheap
+			}
 			for g := 0; g < grid; g++ {
 				pair(k, uint64(100+ki), SwitchSpec{Task: 0, Mode: "frac", Num: uint64((2*g + 1) * 1000000 / (2 * grid)), To: 1})
 			}
